@@ -16,6 +16,8 @@ from datetime import datetime, timedelta
 
 ID = "C04"
 LEVEL = "exploration"
+SUITE_UNDER_MONITORS = True  # thorough tier: the unedited repository tests run with this property's contracts loaded
+SUITE_CONTRACTS = ("record_roundtrip", "record_decode")
 CONTRACTS = ("record_roundtrip", "record_decode")
 REACH = {"Cell._to_buffer": "Cell._to_buffer", "Cell._from_storage": "Cell._from_storage"}
 ASSUMPTIONS = ["ref/cellrec.py is the published v5 layout: 12-byte header, then one field per set flag bit in ascending bit order (16/8/8 bytes for bits 0-2, 4 bytes for bits 3-20)",
